@@ -39,7 +39,7 @@ def run_history(case: dict) -> dict:
             import traceback
 
             tb = traceback.format_exc()
-            if 'File "/repo/' not in tb:
+            if f'File "{core.REPO}/' not in tb:
                 raise
             rec["raised"] = f"{type(e).__name__}: {str(e)[:200]}"
             steps.append(rec)
